@@ -135,6 +135,15 @@ class LowerBase:
             if len(cands) == 1:
                 did = cands.pop()
                 return ('enum', did) if self.ast.node(did).get('kind') == 'EnumDecl' else ('rec', did)
+        else:
+            # template-id printed with partially qualified names (sugar only, no desugared form in the dump): compare with the
+            # known records after dropping every namespace qualifier; accepted only when exactly one record matches
+            strip = lambda t: re.sub(r'\b(?:[A-Za-z_]\w*::)+', '', t).replace(' ', '')
+            sb = strip(b)
+            cands = set(i for k, i in self.ast.typemap.items() if '<' in k and strip(k) == sb)
+            if len(cands) == 1:
+                did = cands.pop()
+                return ('enum', did) if self.ast.node(did).get('kind') == 'EnumDecl' else ('rec', did)
         raise Unsupported('unresolved type %r (context %s)' % (b, self.ast.loc(ctx_node) if ctx_node else '?'))
 
     def normalize_tname(self, b):
